@@ -15,6 +15,9 @@ fn feedback_cfg() -> Cfg {
     c.n_out = (1, 3);
     c.n_bidir = (0, 1);
     c.allow_c = true;
+    // a virtual signal can turn a row into an error item; the caller goes on, and what later
+    // expressions see must not be affected
+    c.max_virtual = 1;
     c.w_row = 12;
     c.w_let = 7;
     c.max_depth = 3;
@@ -36,7 +39,7 @@ impl Property for C04 {
         }
     }
     fn required_classes(&self) -> Vec<&'static str> {
-        vec!["fresh-read", "ctor-refusal-due", "zx-error-due", "clock-triple", "defaulting-driver", "overriding-driver", "read-before-first-row", "shadowing"]
+        vec!["fresh-read", "ctor-refusal-due", "zx-error-due", "clock-triple", "defaulting-driver", "overriding-driver", "read-before-first-row", "shadowing", "row-after-virtual-error"]
     }
     fn run(&self, s: &Streams) -> CaseOut {
         let mut out = CaseOut::new();
@@ -61,7 +64,7 @@ impl Property for C04 {
         let f = feats(&built);
         feat_classes(&mut out, &f);
         out.class(if spec.override_write { "overriding-driver" } else { "defaulting-driver" });
-        let t = ri::run(&built.prog, &built.sigs, &spec, &ri::RiOpts::default());
+        let t = ri::run(&built.prog, &built.sigs, &spec, &ri::RiOpts { continue_after_virtual_error: true, ..Default::default() });
         fact_classes(&mut out, &t);
         if matches!(t.end, ri::RiEnd::StepCap) && t.items.is_empty() {
             out.discard("step-cap-before-first-row");
@@ -80,6 +83,16 @@ impl Property for C04 {
             out.class("zx-error-due");
         }
         out.class_if(t.facts.fresh_reads > 0, "fresh-read");
+        {
+            let mut seen_err = false;
+            for i in &t.items {
+                match i {
+                    ri::RiItem::Hazard { after_call: true, .. } => seen_err = true,
+                    ri::RiItem::Row(_) if seen_err => out.class("row-after-virtual-error"),
+                    _ => {}
+                }
+            }
+        }
         // a read evaluated before the first row: first statement chain reads the device
         if let Some(crate::model::Stmt::Let(_, e)) = built.prog.stmts.first() {
             let mut reads = false;
@@ -95,7 +108,7 @@ impl Property for C04 {
         let Some(tc) = load_wellformed(&mut out, "c04", &text, &built.sigs) else {
             return out;
         };
-        let real = run_real(&tc, &built.sigs, &spec, &RunOpts { max_next: next_budget(&t), ..Default::default() });
+        let real = run_real(&tc, &built.sigs, &spec, &RunOpts { max_next: next_budget(&t), continue_after_error: true, ..Default::default() });
         if !t.ctor_missing.is_empty() {
             out.class("ctor-refusal-due");
             out.nontrivial = true;
